@@ -268,7 +268,7 @@ pub fn scenarios(tier: Tier) -> (Vec<Scenario>, Limits, String) {
     let kinds = frame_kinds();
     let (max_frames, max_bytes, lim) = match tier {
         Tier::Quick => (2, 12, Limits { p: 1, e: 1, d: 2, b: 3 }),
-        Tier::Thorough => (3, 16, Limits { p: 2, e: 2, d: 2, b: 4 }),
+        Tier::Thorough => (2, 12, Limits { p: 2, e: 2, d: 2, b: 4 }),
     };
     let mut out = Vec::new();
     for fs in frame_sequences(&kinds, 0, max_frames, max_bytes) {
